@@ -290,7 +290,23 @@ pub fn gradient_src(ctx: &Ctx, ext: f32) -> BoxedStrategy<SrcSpec> {
 /// a linear gradient whose start and end point coincide exactly (constant colour: the first stop); outside
 /// C12's domain (extent >= 1 px) but a legal source everywhere else
 pub fn degenerate_gradient_src(ctx: &Ctx, ext: f32) -> BoxedStrategy<SrcSpec> {
-    (stops(ctx), 0u8..3, -4.0f32..ext + 4.0, -4.0f32..ext + 4.0).prop_map(|(stops, spread, x, y)| SrcSpec::Linear { stops, spread, x0: x, y0: y, x1: x, y1: y }).boxed()
+    let c = move || -4.0f32..ext + 4.0;
+    prop_oneof![
+        (stops(ctx), 0u8..3, c(), c()).prop_map(|(stops, spread, x, y)| SrcSpec::Linear { stops, spread, x0: x, y0: y, x1: x, y1: y }),
+        // a two-circle gradient whose circles are not nested: outside the cone they span there is no circle
+        // through a point and the source is transparent there, whatever the stops (also outside C12's domain)
+        (stops(ctx), 0u8..3, c(), c(), 0.5f32..4.0, 1.0f32..ext.max(2.0), 0.0f32..360.0, 0.5f32..5.0, any::<bool>()).prop_map(|(mut stops, spread, x1, y1, r1, gap, ang, r2, opaque)| {
+            if opaque {
+                for s in stops.iter_mut() {
+                    s.color |= 0xff00_0000;
+                }
+            }
+            let d = (r1 - r2).abs() + gap;
+            let (cs, sn) = rot(ang);
+            SrcSpec::TwoCircle { stops, spread, x1, y1, r1, x2: x1 + d * cs, y2: y1 + d * sn, r2 }
+        }),
+    ]
+    .boxed()
 }
 
 pub fn any_src(ctx: &Ctx, ext: f32) -> BoxedStrategy<SrcSpec> {
@@ -298,7 +314,7 @@ pub fn any_src(ctx: &Ctx, ext: f32) -> BoxedStrategy<SrcSpec> {
         10 => solid_src(),
         6 => image_src(5),
         6 => gradient_src(ctx, ext),
-        1 => degenerate_gradient_src(ctx, ext),
+        2 => degenerate_gradient_src(ctx, ext),
     ]
     .boxed()
 }
